@@ -372,6 +372,7 @@ def stressOk (ws : List String) : Bool :=
       | "trypop" => kind == "syncq"
       | "wake" => kind == "q" || kind == "async" || kind == "mux" || kind == "mq" || kind == "syncq"
       | "runner" => kind == "async"
+      | "runnercap" => kind == "async"
       | _ => false
     okKind && (match Nv.parseNat? n with
       | some k => decide (1 ≤ k) && decide (k ≤ 10000000) && toString k == n
